@@ -10,7 +10,7 @@ from __future__ import annotations
 import ast
 
 from ..astutil import ancestors, body_always_raises, calls_in, dotted, enclosing_stmt, is_within, src, walk_local
-from ..cfg import cfg_of
+from ..cfg import cfg_of, deref_at
 from ..loader import AnalysisError
 from ..terms import Evaluator, alts, backend_method, contains, find, show, walk
 from . import shared
@@ -109,8 +109,10 @@ def _clean_roles(corpus):
     fn = corpus.func('repository', 'Repository.clean')
     loop = None
     for n in walk_local(fn.node):
-        if isinstance(n, (ast.For, ast.AsyncFor)) and any(isinstance(a, ast.Attribute) and a.attr == 'list_files' for a in ast.walk(n.iter)):
-            loop = n
+        if isinstance(n, (ast.For, ast.AsyncFor)):
+            it = deref_at(fn.node, n.iter) if isinstance(n.iter, ast.Name) else n.iter
+            if any(isinstance(a, ast.Attribute) and a.attr == 'list_files' for a in ast.walk(it)):
+                loop = n
     if loop is None or not isinstance(loop.target, ast.Name):
         raise AnalysisError('clean: loop over the chunk listing not found')
     var = loop.target.id
